@@ -115,3 +115,10 @@ META['C18'] = dict(
     technique='stateful property-based testing (rapid state machine over sessions) against a history-file reference model',
     level_text='Exploration: tens of thousands of multi-session histories on a real file, every previous/next result and every file content compared with the model.',
     level_note='Sessions are driven through the History type exactly in the order the terminal uses it (override, previous/next, append); the process-level check drives the real binary.')
+
+META['C16'] = dict(
+    engine='rapid-inpkg',
+    design_ref='DESIGN.md section 4, C16',
+    technique='property-based testing (rapid): HTTP request grammar + byte soups with generated framing against a well-formedness predicate, an authorisation rule and a POST-body == --bind parse differential',
+    level_text='Exploration: tens of thousands (quick) to ~1M (thorough) requests delivered to the request handler in generated chunkings with early close; live-endpoint sessions at process level.',
+    level_note='Handler level uses net.Pipe and a fake action channel / state handler; trusts the well-formedness predicate in the harness.')
